@@ -1,12 +1,13 @@
 SPECIFICATION Spec
 CONSTANTS
- MaxP = 47
- MaxQ = 23
- MaxK = 7
+ MaxP = 23
+ MaxQ = 11
+ MaxK = 3
  Margin = 4
  Variants <- A_com3
  NaiveMaxP = 0
  NaiveVariants <- None
+ AccMaxP = 11
  NbrMaxP = 23
  NbrVariants <- A_com3
  Mode = "nbr"
